@@ -26,13 +26,13 @@ type suite struct {
 	x    *rdr
 	offs map[int]int // chunk header offset -> chunk index
 
-	tol     tolStats
-	str     strictStats
-	dp      dpState
-	evals   int
-	nviol   int
-	dead    bool // a panic happened or too many violations: stop the case
-	counts  map[string]int64
+	tol    tolStats
+	str    strictStats
+	dp     dpState
+	evals  int
+	nviol  int
+	dead   bool // a panic happened or too many violations: stop the case
+	counts map[string]int64
 }
 
 func (s *suite) count(k string, n int64) { s.counts[k] += n }
